@@ -395,27 +395,214 @@ theorem round_tie_even (q : Rat) (f : Fmt)
     rw [if_neg h1, Rat.abs_of_nonneg hn]
     exact ⟨sigOf f q, he, hev ht⟩
 
+/-! ### The overflow edge -/
+
+theorem ilog2_eq {a : Rat} {e : Int} (h1 : (2 : Rat) ^ e ≤ a) (h2 : a < (2 : Rat) ^ (e + 1)) : ilog2 a = e := by
+  have hpos : 0 < a := by have := zpow_pos e; grind
+  obtain ⟨hl, hu⟩ := ilog2_bracket hpos
+  have := lt_of_zpow_lt (x := ilog2 a) (y := e + 1) (by grind)
+  have := lt_of_zpow_lt (x := e) (y := ilog2 a + 1) (by grind)
+  omega
+
+theorem sub_mul (x y z : Rat) : (x - y) * z = x * z - y * z := by
+  rw [Rat.sub_eq_add_neg, Rat.add_mul, Rat.neg_mul, ← Rat.sub_eq_add_neg]
+
+theorem int_le_of_mul_le {m k : Int} {U : Rat} (hU : 0 < U) (h : (k : Rat) * U ≤ (m : Rat) * U) : k ≤ m := by
+  apply Decidable.byContradiction
+  intro hn
+  have h1 : m + 1 ≤ k := by omega
+  have h2 : ((m + 1 : Int) : Rat) ≤ (k : Rat) := Rat.intCast_le_intCast.mpr h1
+  rw [Rat.intCast_add] at h2
+  have h3 := Rat.mul_le_mul_of_nonneg_right h2 (Rat.le_of_lt hU)
+  rw [Rat.add_mul] at h3
+  have h4 : ((1 : Int) : Rat) = 1 := rfl
+  rw [h4, Rat.one_mul] at h3
+  grind
+
+/-- The unit in the last place in the binade `[2^e, 2^(e+1))` of the normal range. -/
+theorem ulp_of_binade (f : Fmt) {a : Rat} {e : Int} (he : f.emin ≤ e) (h1 : (2 : Rat) ^ e ≤ a)
+    (h2 : a < (2 : Rat) ^ (e + 1)) : ulp f a = (2 : Rat) ^ (e - ((f.prec : Int) - 1)) := by
+  unfold ulp qexp
+  rw [ilog2_eq h1 h2]
+  congr 1; omega
+
+/-- **The overflow edge.** The rounded magnitude reaches `2^(emax+1)` exactly from the midpoint between the
+largest number of the format and `2^(emax+1)` on: `2^(emax+1) - 2^(emax-prec)`, half a unit of the top binade
+below the power of two (the tie itself goes up: the largest significand `2^prec - 1` is odd). -/
+theorem roundMag_overflow_iff (f : Fmt) (hp : 1 ≤ f.prec) (he : f.emin < f.emax) {a : Rat} (ha : 0 ≤ a) :
+    (2 : Rat) ^ (f.emax + 1) ≤ roundMag f a ↔
+      (2 : Rat) ^ (f.emax + 1) - (2 : Rat) ^ (f.emax - (f.prec : Int)) ≤ a := by
+  obtain ⟨hm, hs0, hsle, hlo, hhi, hev⟩ := roundMag_spec f ha
+  have hUpos := ulp_pos f a
+  -- H = half a unit of the top binade, 2H = that unit, Top = 2^prec units
+  have hH : (2 : Rat) ^ (f.emax - ((f.prec : Int) - 1)) = (2 : Rat) ^ (f.emax - (f.prec : Int)) * 2 := by
+    rw [← zpow_succ]; congr 1; omega
+  have hHpos := zpow_pos (f.emax - (f.prec : Int))
+  have hTop : (2 : Rat) ^ (f.emax + 1) = (2 : Rat) ^ (f.prec : Int) * (2 : Rat) ^ (f.emax - ((f.prec : Int) - 1)) := by
+    rw [← Rat.zpow_add two_ne]; congr 1; omega
+  have hTopE : (2 : Rat) ^ (f.emax + 1) = (2 : Rat) ^ f.emax * 2 := zpow_succ _
+  have hEH : (2 : Rat) ^ (f.emax - (f.prec : Int)) ≤ (2 : Rat) ^ f.emax := zpow_le (by omega)
+  constructor
+  · -- not below the edge: contrapositive, `a` below the edge rounds below the power of two
+    intro hov
+    apply Decidable.byContradiction
+    intro hn
+    have hlt : a < (2 : Rat) ^ (f.emax + 1) - (2 : Rat) ^ (f.emax - (f.prec : Int)) := Rat.not_le.mp hn
+    by_cases hb : (2 : Rat) ^ f.emax ≤ a
+    · have hu := ulp_of_binade f (Int.le_of_lt he) hb (by grind)
+      rw [hu, hH] at hhi
+      grind
+    · have hb' : a < (2 : Rat) ^ f.emax := Rat.not_le.mp hb
+      by_cases h0 : a = 0
+      · rw [h0, roundMag_zero] at hov
+        have := zpow_pos (f.emax + 1)
+        grind
+      · have hpos : 0 < a := by grind
+        have hil : ilog2 a < f.emax := by
+          have := (ilog2_bracket hpos).1
+          exact lt_of_zpow_lt (by grind)
+        have hUle : ulp f a ≤ (2 : Rat) ^ (f.emax - (f.prec : Int)) := by
+          unfold ulp qexp; exact zpow_le (by omega)
+        have h1 : (sigOf f a : Rat) ≤ (2 : Rat) ^ (f.prec : Int) := by
+          rw [← intCast_two_pow]; exact Rat.intCast_le_intCast.mpr hsle
+        have h2 := Rat.mul_le_mul_of_nonneg_right h1 (Rat.le_of_lt hUpos)
+        have h3 := Rat.mul_le_mul_of_nonneg_left hUle (Rat.le_of_lt (zpow_pos (f.prec : Int)))
+        have h4 : (2 : Rat) ^ (f.prec : Int) * (2 : Rat) ^ (f.emax - (f.prec : Int)) = (2 : Rat) ^ f.emax := by
+          rw [← Rat.zpow_add two_ne]; congr 1; omega
+        rw [hm] at hov
+        grind
+  · intro hge
+    by_cases hb : a < (2 : Rat) ^ (f.emax + 1)
+    · -- in the top binade, at or above the midpoint
+      have hbl : (2 : Rat) ^ f.emax ≤ a := by grind
+      have hu := ulp_of_binade f (Int.le_of_lt he) hbl hb
+      -- the significand is at least 2^prec - 1 ...
+      have hk : ((2 : Int) ^ f.prec - 1 : Int) ≤ sigOf f a := by
+        apply int_le_of_mul_le hUpos
+        rw [Rat.intCast_sub, intCast_two_pow, sub_mul, ← hm, hu]
+        have h1 : ((1 : Int) : Rat) = 1 := rfl
+        rw [h1, Rat.one_mul, ← hTop]
+        rw [hu, hH] at hlo
+        grind
+      by_cases hk2 : (2 : Int) ^ f.prec ≤ sigOf f a
+      · have h1 : (2 : Rat) ^ (f.prec : Int) ≤ (sigOf f a : Rat) := by
+          rw [← intCast_two_pow]; exact Rat.intCast_le_intCast.mpr hk2
+        have h2 := Rat.mul_le_mul_of_nonneg_right h1 (Rat.le_of_lt hUpos)
+        rw [hm, hTop, ← hu]; exact h2
+      · -- ... and 2^prec - 1 is odd, so the tie cannot have gone down
+        have heq : sigOf f a = (2 : Int) ^ f.prec - 1 := by omega
+        have hodd : sigOf f a % 2 = 1 := by
+          rw [heq]
+          obtain ⟨n, hn⟩ : ∃ n, f.prec = n + 1 := ⟨f.prec - 1, by omega⟩
+          rw [hn, Int.pow_succ]; omega
+        have hval : roundMag f a = (2 : Rat) ^ (f.emax + 1) - (2 : Rat) ^ (f.emax - ((f.prec : Int) - 1)) := by
+          rw [hm, heq, Rat.intCast_sub, intCast_two_pow, sub_mul, hu, ← hTop]
+          have h1 : ((1 : Int) : Rat) = 1 := rfl
+          rw [h1, Rat.one_mul]
+        have htie : a - roundMag f a = ulp f a / 2 := by
+          rw [hu, hH] at hlo ⊢
+          rw [hval, hH]
+          rw [hval, hH] at hlo
+          grind
+        have := hev (Or.inr htie)
+        omega
+    · -- beyond the top binade: the result is at least the power of two below `a`
+      have hb' : (2 : Rat) ^ (f.emax + 1) ≤ a := Rat.not_lt.mp hb
+      have hpos : 0 < a := by have := zpow_pos (f.emax + 1); grind
+      have hil : f.emax + 1 ≤ ilog2 a := by
+        have := (ilog2_bracket hpos).2
+        have := lt_of_zpow_lt (x := f.emax + 1) (y := ilog2 a + 1) (by grind)
+        omega
+      obtain ⟨hn1, -⟩ := ulp_normal f hpos (by omega)
+      have hk : ((2 : Int) ^ (f.prec - 1) : Int) ≤ sigOf f a := by
+        apply Decidable.byContradiction
+        intro hc
+        have h1 : sigOf f a + 1 ≤ (2 : Int) ^ (f.prec - 1) := by omega
+        have h2 : ((sigOf f a + 1 : Int) : Rat) ≤ (((2 : Int) ^ (f.prec - 1) : Int) : Rat) := Rat.intCast_le_intCast.mpr h1
+        rw [Rat.intCast_add, intCast_two_pow] at h2
+        have h3 := Rat.mul_le_mul_of_nonneg_right h2 (Rat.le_of_lt hUpos)
+        rw [Rat.add_mul, ← hm] at h3
+        have h4 : ((1 : Int) : Rat) = 1 := rfl
+        rw [h4, Rat.one_mul] at h3
+        have h5 : (((f.prec - 1 : Nat) : Int)) = (f.prec : Int) - 1 := by omega
+        rw [h5] at h3
+        grind
+      have h1 : (2 : Rat) ^ ((f.prec : Int) - 1) ≤ (sigOf f a : Rat) := by
+        have h5 : (((f.prec - 1 : Nat) : Int)) = (f.prec : Int) - 1 := by omega
+        rw [← h5, ← intCast_two_pow]; exact Rat.intCast_le_intCast.mpr hk
+      have h2 := Rat.mul_le_mul_of_nonneg_right h1 (Rat.le_of_lt hUpos)
+      rw [← hm] at h2
+      have h3 : (2 : Rat) ^ ((f.prec : Int) - 1) * ulp f a = (2 : Rat) ^ ilog2 a := by
+        unfold ulp qexp
+        rw [← Rat.zpow_add two_ne]; congr 1; omega
+      have h4 := zpow_le (x := f.emax + 1) (y := ilog2 a) hil
+      grind
+
 /-! ### The literal -/
 
-/-- (a) Typing rule, total over all digit strings: the literal is a DOUBLE exactly when `#` follows. -/
-theorem fracLit_type (t : FracTok) : (fracLit t).isDouble = t.pound := by
-  unfold fracLit; cases t.pound <;> rfl
+/-- The literal of the suffix's type with the value `v`. -/
+def mkLit (t : FracTok) (v : FVal) : FLit := if t.pound then .double v else .single v
+
+theorem mkLit_isDouble (t : FracTok) (v : FVal) : (mkLit t v).isDouble = t.pound := by
+  unfold mkLit; cases t.pound <;> rfl
+
+theorem mkLit_fmt (t : FracTok) (v : FVal) : (mkLit t v).fmt = fmtOf t := by
+  unfold mkLit fmtOf; cases t.pound <;> rfl
+
+theorem mkLit_val (t : FracTok) (v : FVal) : (mkLit t v).val = v := by
+  unfold mkLit; cases t.pound <;> rfl
+
+/-- The parser in one line: the parsed float of the suffix's format, kept if finite, `Overflow` otherwise. -/
+theorem fracLit_eq (t : FracTok) :
+    fracLit t = if (value (fmtOf t) (exact t)).isFinite then .ok (mkLit t (value (fmtOf t) (exact t)))
+      else .overflow := by
+  unfold fracLit fmtOf mkLit; cases t.pound <;> rfl
+
+theorem negFracLit_eq (t : FracTok) :
+    negFracLit t = if (value (fmtOf t) (exact t)).isFinite then .ok (mkLit t (value (fmtOf t) (exact t)).neg)
+      else .overflow := by
+  unfold negFracLit
+  rw [fracLit_eq]
+  by_cases hf : (value (fmtOf t) (exact t)).isFinite = true
+  · rw [if_pos hf, if_pos hf]; unfold mkLit; cases t.pound <;> rfl
+  · rw [if_neg hf, if_neg hf]
+
+theorem fracLit_ok {t : FracTok} {l : FLit} (h : fracLit t = .ok l) :
+    (value (fmtOf t) (exact t)).isFinite = true ∧ l = mkLit t (value (fmtOf t) (exact t)) := by
+  rw [fracLit_eq] at h
+  split at h
+  · exact ⟨‹_›, (FRes.ok.inj h).symm⟩
+  · cases h
+
+theorem negFracLit_ok {t : FracTok} {l : FLit} (h : negFracLit t = .ok l) :
+    (value (fmtOf t) (exact t)).isFinite = true ∧ l = mkLit t (value (fmtOf t) (exact t)).neg := by
+  rw [negFracLit_eq] at h
+  split at h
+  · exact ⟨‹_›, (FRes.ok.inj h).symm⟩
+  · cases h
+
+/-- (a) Typing rule, total over all digit strings: an accepted literal is a DOUBLE exactly when `#` follows. -/
+theorem fracLit_type (t : FracTok) (l : FLit) (h : fracLit t = .ok l) : l.isDouble = t.pound := by
+  rw [(fracLit_ok h).2, mkLit_isDouble]
 
 /-- (a) The digits play no part in the type: neither their number nor their value (a literal with a
 fraction is never INTEGER or LONG, `2.0` included, and `0.1234567890123456789` is a SINGLE). -/
-theorem fracLit_type_digits_irrelevant (t t' : FracTok) (h : t.pound = t'.pound) :
-    (fracLit t).isDouble = (fracLit t').isDouble := by
-  rw [fracLit_type, fracLit_type, h]
+theorem fracLit_type_digits_irrelevant (t t' : FracTok) (l l' : FLit) (hp : t.pound = t'.pound)
+    (h : fracLit t = .ok l) (h' : fracLit t' = .ok l') : l.isDouble = l'.isDouble := by
+  rw [fracLit_type t l h, fracLit_type t' l' h', hp]
 
-theorem fracLit_fmt (t : FracTok) : (fracLit t).fmt = if t.pound then double else single := by
-  unfold fracLit; cases t.pound <;> rfl
+theorem fracLit_fmt (t : FracTok) (l : FLit) (h : fracLit t = .ok l) : l.fmt = fmtOf t := by
+  rw [(fracLit_ok h).2, mkLit_fmt]
 
 /-- (a) A minus sign in front keeps the type. -/
-theorem negFracLit_type (t : FracTok) : (negFracLit t).isDouble = t.pound := by
-  unfold negFracLit fracLit; cases t.pound <;> rfl
+theorem negFracLit_type (t : FracTok) (l : FLit) (h : negFracLit t = .ok l) : l.isDouble = t.pound := by
+  rw [(negFracLit_ok h).2, mkLit_isDouble]
 
-theorem negFracLit_fmt (t : FracTok) : (negFracLit t).fmt = (fracLit t).fmt := by
-  unfold negFracLit fracLit; cases t.pound <;> rfl
+theorem negFracLit_fmt (t : FracTok) (l : FLit) (h : negFracLit t = .ok l) : l.fmt = fmtOf t := by
+  rw [(negFracLit_ok h).2, mkLit_fmt]
+
+theorem fmtOf_prec (t : FracTok) : 1 ≤ (fmtOf t).prec := by
+  unfold fmtOf; cases t.pound <;> decide
 
 theorem exact_nonneg (t : FracTok) : 0 ≤ exact t := by
   unfold exact
@@ -425,11 +612,21 @@ theorem exact_nonneg (t : FracTok) : 0 ≤ exact t := by
   apply Rat.inv_pos.mpr
   exact Rat.natCast_pos.mpr (Nat.pow_pos (by omega))
 
-theorem fracLit_val (t : FracTok) : (fracLit t).val = value (fracLit t).fmt (exact t) := by
-  unfold fracLit; cases t.pound <;> rfl
+theorem fracLit_val (t : FracTok) (l : FLit) (h : fracLit t = .ok l) : l.val = value (fmtOf t) (exact t) := by
+  rw [(fracLit_ok h).2, mkLit_val]
 
-theorem negFracLit_val (t : FracTok) : (negFracLit t).val = (fracLit t).val.neg := by
-  unfold negFracLit fracLit; cases t.pound <;> rfl
+/-- (c) The sign and the error commute: the negated literal is accepted exactly when the literal is, and then
+it is the literal of the same type with the float negated. -/
+theorem negFracLit_val (t : FracTok) :
+    (∀ l, fracLit t = .ok l → ∃ l', negFracLit t = .ok l' ∧ l'.val = l.val.neg ∧ l'.fmt = l.fmt) ∧
+    (negFracLit t = .overflow ↔ fracLit t = .overflow) := by
+  rw [fracLit_eq, negFracLit_eq]
+  split
+  · refine ⟨fun l h => ⟨_, rfl, ?_, ?_⟩, ?_⟩
+    · rw [← FRes.ok.inj h, mkLit_val, mkLit_val]
+    · rw [← FRes.ok.inj h, mkLit_fmt, mkLit_fmt]
+    · constructor <;> (intro h; cases h)
+  · exact ⟨fun l h => (by cases h), Iff.rfl⟩
 
 theorem roundNE_of_nonneg {q : Rat} (f : Fmt) (h : 0 ≤ q) : roundNearestEven q f = roundMag f q := by
   unfold roundNearestEven; rw [if_neg (Rat.not_lt.mpr h)]
@@ -439,56 +636,155 @@ theorem roundMag_nonneg (f : Fmt) {a : Rat} (h : 0 ≤ a) : 0 ≤ roundMag f a :
   rw [he]
   exact Rat.mul_nonneg (Rat.intCast_nonneg.mpr h0) (Rat.le_of_lt (ulp_pos f a))
 
-/-- (b) Value theorem.  Either the literal is finite and then its value is the exact decimal
+/-- What `parse` answers is finite exactly below `2^(emax+1)`. -/
+theorem value_isFinite (f : Fmt) (a : Rat) :
+    (value f a).isFinite = true ↔ roundMag f a < (2 : Rat) ^ (f.emax + 1) := by
+  unfold value
+  by_cases h : (2 : Rat) ^ (f.emax + 1) ≤ roundMag f a
+  · rw [if_pos h]
+    exact ⟨fun h' => absurd h' (by decide), fun h' => absurd h (Rat.not_le.mpr h')⟩
+  · rw [if_neg h]; exact ⟨fun _ => Rat.not_le.mp h, fun _ => rfl⟩
+
+theorem value_of_lt (f : Fmt) (a : Rat) (h : roundMag f a < (2 : Rat) ^ (f.emax + 1)) :
+    value f a = .fin false (roundMag f a) := by
+  unfold value; rw [if_neg (Rat.not_le.mpr h)]
+
+/-- (b) **Rejection rule.** The literal is rejected with `Overflow` exactly when the exact decimal, rounded to
+nearest-even in the format of its type, reaches `2^(emax+1)` (`2^128` for a SINGLE, `2^1024` for a DOUBLE). -/
+theorem fracLit_overflow_iff (t : FracTok) :
+    fracLit t = .overflow ↔ (2 : Rat) ^ ((fmtOf t).emax + 1) ≤ roundNearestEven (exact t) (fmtOf t) := by
+  rw [fracLit_eq, roundNE_of_nonneg _ (exact_nonneg t)]
+  by_cases hf : (value (fmtOf t) (exact t)).isFinite = true
+  · rw [if_pos hf]
+    have := (value_isFinite _ _).mp hf
+    constructor
+    · intro h; cases h
+    · intro h; exact absurd this (Rat.not_lt.mpr h)
+  · rw [if_neg hf]
+    have : ¬ roundMag (fmtOf t) (exact t) < (2 : Rat) ^ ((fmtOf t).emax + 1) := fun h => hf ((value_isFinite _ _).mpr h)
+    exact ⟨fun _ => Rat.not_lt.mp this, fun _ => rfl⟩
+
+theorem fmtOf_emin_lt_emax (t : FracTok) : (fmtOf t).emin < (fmtOf t).emax := by
+  unfold fmtOf; cases t.pound <;> decide
+
+/-- (b) **Rejection rule, on the written decimal itself.** The literal is rejected exactly when the exact decimal
+is at least `2^(emax+1) - 2^(emax-prec)`: `2^128 - 2^103 = 340282356779733661637539395458142568448` for a SINGLE,
+`2^1024 - 2^970` for a DOUBLE (the midpoint between the largest number of the type and the next power of two). -/
+theorem fracLit_overflow_edge (t : FracTok) :
+    fracLit t = .overflow ↔
+      (2 : Rat) ^ ((fmtOf t).emax + 1) - (2 : Rat) ^ ((fmtOf t).emax - ((fmtOf t).prec : Int)) ≤ exact t := by
+  rw [fracLit_overflow_iff, roundNE_of_nonneg _ (exact_nonneg t)]
+  exact roundMag_overflow_iff _ (fmtOf_prec t) (fmtOf_emin_lt_emax t) (exact_nonneg t)
+
+/-- The constant of `RbModel.Expr.processDec` is that edge for DOUBLE: `parse::<f64>` of a whole number `n` is an
+infinity (and the digit run is rejected with Overflow) exactly from `dblOverflow = 2^1024 - 2^970` on. -/
+theorem dblOverflow_is_rounding_edge (n : Nat) :
+    (value double (n : Rat)).isFinite = false ↔ dblOverflow ≤ n := by
+  have hedge : (2 : Rat) ^ (double.emax + 1) - (2 : Rat) ^ (double.emax - (double.prec : Int)) = (dblOverflow : Rat) := by
+    decide +kernel
+  have h := roundMag_overflow_iff double (by decide) (by decide) (a := (n : Rat)) Rat.natCast_nonneg
+  rw [hedge, Rat.natCast_le_natCast] at h
+  rw [← h]
+  have hv := value_isFinite double (n : Rat)
+  constructor
+  · intro hf
+    apply Decidable.byContradiction
+    intro hn
+    have := hv.mpr (Rat.not_le.mp hn)
+    rw [hf] at this; cases this
+  · intro hle
+    cases hfin : (value double (n : Rat)).isFinite
+    · rfl
+    · exact absurd (hv.mp hfin) (Rat.not_lt.mpr hle)
+
+/-- (b) Value theorem.  Either the literal is accepted and then its value is the exact decimal
 `digits / 10^k` rounded to nearest-even in the format of its type: a number of the format, below
-`2^(emax+1)`, at most half a unit in the last place away from the decimal; or it is `+inf`, exactly when
-the rounded decimal reaches `2^(emax+1)`. -/
+`2^(emax+1)`, at most half a unit in the last place away from the decimal; or it is rejected with `Overflow`,
+exactly when the rounded decimal reaches `2^(emax+1)`. -/
 theorem fracLit_value (t : FracTok) :
-    let f := (fracLit t).fmt
+    let f := fmtOf t
     let r := roundNearestEven (exact t) f
-    (r < (2 : Rat) ^ (f.emax + 1) ∧ (fracLit t).val = .fin false r ∧ Representable f r ∧
-      exact t - ulp f (exact t) / 2 ≤ r ∧ r ≤ exact t + ulp f (exact t) / 2) ∨
-    ((2 : Rat) ^ (f.emax + 1) ≤ r ∧ (fracLit t).val = .inf false) := by
+    (r < (2 : Rat) ^ (f.emax + 1) ∧ (∃ l, fracLit t = .ok l ∧ l.fmt = f ∧ l.val = .fin false r) ∧
+      Representable f r ∧ exact t - ulp f (exact t) / 2 ≤ r ∧ r ≤ exact t + ulp f (exact t) / 2) ∨
+    ((2 : Rat) ^ (f.emax + 1) ≤ r ∧ fracLit t = .overflow) := by
   intro f r
-  have hp : 1 ≤ f.prec := by
-    show 1 ≤ (fracLit t).fmt.prec
-    rw [fracLit_fmt]; cases t.pound <;> decide
+  have hp : 1 ≤ f.prec := fmtOf_prec t
   have hn := exact_nonneg t
   have hr : r = roundMag f (exact t) := roundNE_of_nonneg f hn
-  have hv : (fracLit t).val = value f (exact t) := fracLit_val t
-  by_cases hov : (2 : Rat) ^ (f.emax + 1) ≤ roundMag f (exact t)
+  by_cases hov : (2 : Rat) ^ (f.emax + 1) ≤ r
   · right
-    refine ⟨hr ▸ hov, ?_⟩
-    rw [hv]; unfold value; rw [if_pos hov]
+    exact ⟨hov, (fracLit_overflow_iff t).mpr hov⟩
   · left
+    have hlt : roundMag f (exact t) < (2 : Rat) ^ (f.emax + 1) := hr ▸ Rat.not_le.mp hov
     have hh := round_half_ulp (exact t) f
     rw [Rat.abs_of_nonneg hn] at hh
-    refine ⟨hr ▸ Rat.not_le.mp hov, ?_, round_representable _ f hp, hh.1, hh.2⟩
-    rw [hv]; unfold value; rw [if_neg hov, hr]
+    refine ⟨Rat.not_le.mp hov, ⟨mkLit t (value f (exact t)), ?_, mkLit_fmt _ _, ?_⟩,
+      round_representable _ f hp, hh.1, hh.2⟩
+    · rw [fracLit_eq, if_pos ((value_isFinite _ _).mpr hlt)]
+    · rw [mkLit_val, value_of_lt f _ hlt, hr]
+
+/-- (b) **An accepted literal is finite and representable**: its value is a non-negative number of the format
+of its type below `2^(emax+1)` — never an infinity — namely the exact decimal rounded to nearest-even. -/
+theorem fracLit_accepted_finite (t : FracTok) (l : FLit) (h : fracLit t = .ok l) :
+    ∃ r : Rat, l.val = .fin false r ∧ r = roundNearestEven (exact t) l.fmt ∧ Representable l.fmt r ∧
+      0 ≤ r ∧ r < (2 : Rat) ^ (l.fmt.emax + 1) := by
+  obtain ⟨hf, hl⟩ := fracLit_ok h
+  have hlt := (value_isFinite _ _).mp hf
+  have hn := exact_nonneg t
+  have hfm : l.fmt = fmtOf t := fracLit_fmt t l h
+  refine ⟨roundMag (fmtOf t) (exact t), ?_, ?_, ?_, roundMag_nonneg _ hn, ?_⟩
+  · rw [hl, mkLit_val, value_of_lt _ _ hlt]
+  · rw [hfm, roundNE_of_nonneg _ hn]
+  · rw [hfm]; exact roundMag_representable _ (fmtOf_prec t) hn
+  · rw [hfm]; exact hlt
+
+/-- (b, c) The same directly after a minus sign: the sign bit set, the same finite magnitude. -/
+theorem negFracLit_accepted_finite (t : FracTok) (l : FLit) (h : negFracLit t = .ok l) :
+    ∃ r : Rat, l.val = .fin true r ∧ r = roundNearestEven (exact t) l.fmt ∧ Representable l.fmt r ∧
+      0 ≤ r ∧ r < (2 : Rat) ^ (l.fmt.emax + 1) := by
+  obtain ⟨hf, hl⟩ := negFracLit_ok h
+  have hlt := (value_isFinite _ _).mp hf
+  have hn := exact_nonneg t
+  have hfm : l.fmt = fmtOf t := negFracLit_fmt t l h
+  refine ⟨roundMag (fmtOf t) (exact t), ?_, ?_, ?_, roundMag_nonneg _ hn, ?_⟩
+  · rw [hl, mkLit_val, value_of_lt _ _ hlt]; rfl
+  · rw [hfm, roundNE_of_nonneg _ hn]
+  · rw [hfm]; exact roundMag_representable _ (fmtOf_prec t) hn
+  · rw [hfm]; exact hlt
+
+/-- No literal with a fraction, with or without a minus sign in front, is an infinity. -/
+theorem literal_never_infinite (t : FracTok) (l : FLit) (h : fracLit t = .ok l ∨ negFracLit t = .ok l) :
+    l.val.isFinite = true := by
+  rcases h with h | h
+  · obtain ⟨r, hv, -⟩ := fracLit_accepted_finite t l h; rw [hv]; rfl
+  · obtain ⟨r, hv, -⟩ := negFracLit_accepted_finite t l h; rw [hv]; rfl
 
 /-- (b) Exactness: a decimal that is a number of the format (a dyadic rational that fits) is kept exactly. -/
-theorem fracLit_exact (t : FracTok) (h : Representable (fracLit t).fmt (exact t))
-    (hmax : exact t < (2 : Rat) ^ ((fracLit t).fmt.emax + 1)) :
-    (fracLit t).val = .fin false (exact t) := by
+theorem fracLit_exact (t : FracTok) (h : Representable (fmtOf t) (exact t))
+    (hmax : exact t < (2 : Rat) ^ ((fmtOf t).emax + 1)) :
+    ∃ l, fracLit t = .ok l ∧ l.fmt = fmtOf t ∧ l.val = .fin false (exact t) := by
   have hn := exact_nonneg t
-  have h1 : roundMag (fracLit t).fmt (exact t) = exact t := roundMag_exact _ hn h
-  rw [fracLit_val]; unfold value
-  rw [h1, if_neg (Rat.not_le.mpr hmax)]
+  have h1 : roundMag (fmtOf t) (exact t) = exact t := roundMag_exact _ hn h
+  have hlt : roundMag (fmtOf t) (exact t) < (2 : Rat) ^ ((fmtOf t).emax + 1) := by rw [h1]; exact hmax
+  refine ⟨mkLit t (value (fmtOf t) (exact t)), ?_, mkLit_fmt _ _, ?_⟩
+  · rw [fracLit_eq, if_pos ((value_isFinite _ _).mpr hlt)]
+  · rw [mkLit_val, value_of_lt _ _ hlt, h1]
 
 /-- (c) Folding `-literal`: the literal directly after a minus sign denotes the negation of what the
 literal denotes, and that is the negative decimal rounded to nearest-even (sign symmetry). -/
-theorem negFracLit_value (t : FracTok) (v : Rat) (h : (fracLit t).val.toRat? = some v) :
-    (negFracLit t).val.toRat? = some (-v) ∧ -v = roundNearestEven (-(exact t)) (negFracLit t).fmt := by
-  rcases fracLit_value t with ⟨-, hv, -⟩ | ⟨-, hv⟩
-  · rw [hv] at h
-    simp only [FVal.toRat?, Option.some.injEq] at h
-    rw [negFracLit_val, hv, negFracLit_fmt, round_neg, ← h]
-    exact ⟨rfl, rfl⟩
-  · rw [hv] at h; simp [FVal.toRat?] at h
+theorem negFracLit_value (t : FracTok) (l : FLit) (h : fracLit t = .ok l) :
+    ∃ l' v, negFracLit t = .ok l' ∧ l'.fmt = l.fmt ∧ l.val.toRat? = some v ∧ l'.val.toRat? = some (-v) ∧
+      -v = roundNearestEven (-(exact t)) l'.fmt := by
+  obtain ⟨r, hv, hr, -⟩ := fracLit_accepted_finite t l h
+  obtain ⟨l', hl', hval, hfmt⟩ := (negFracLit_val t).1 l h
+  refine ⟨l', r, hl', hfmt, ?_, ?_, ?_⟩
+  · rw [hv]; rfl
+  · rw [hval, hv]; rfl
+  · rw [hfmt, round_neg, ← hr]
 
-/-- (c) An infinite literal stays infinite under the sign, with the sign flipped. -/
-theorem negFracLit_inf (t : FracTok) (h : (fracLit t).val = .inf false) : (negFracLit t).val = .inf true := by
-  rw [negFracLit_val, h]; rfl
+/-- (c) A rejected literal stays rejected under the sign. -/
+theorem negFracLit_overflow (t : FracTok) : negFracLit t = .overflow ↔ fracLit t = .overflow :=
+  (negFracLit_val t).2
 
 
 /-! ### Nearest: no number of the format is closer -/
@@ -605,36 +901,56 @@ theorem round_nearest (q : Rat) (f : Fmt) (hp : 1 ≤ f.prec) {y : Rat} (hy : Re
 /-! ### Non-vacuity -/
 
 /-- `0.1` is a SINGLE: `13421773 / 2^27` (bits `0x3DCCCCCD`); with `#` a DOUBLE: `3602879701896397 / 2^55`. -/
-example : fracLit ⟨[0], [1], false⟩ = .single (.fin false ((13421773 : Rat) / 134217728)) := by decide +kernel
-example : fracLit ⟨[0], [1], true⟩ = .double (.fin false ((3602879701896397 : Rat) / 36028797018963968)) := by
+example : fracLit ⟨[0], [1], false⟩ = .ok (.single (.fin false ((13421773 : Rat) / 134217728))) := by decide +kernel
+example : fracLit ⟨[0], [1], true⟩ = .ok (.double (.fin false ((3602879701896397 : Rat) / 36028797018963968))) := by
   decide +kernel
 /-- `.25` (no integer digits) is exact; the hypothesis of `fracLit_exact` is satisfiable. -/
-example : fracLit ⟨[], [2, 5], false⟩ = .single (.fin false ((1 : Rat) / 4)) := by decide +kernel
-example : Representable (fracLit ⟨[], [2, 5], false⟩).fmt (exact ⟨[], [2, 5], false⟩) :=
+example : fracLit ⟨[], [2, 5], false⟩ = .ok (.single (.fin false ((1 : Rat) / 4))) := by decide +kernel
+example : Representable (fmtOf ⟨[], [2, 5], false⟩) (exact ⟨[], [2, 5], false⟩) :=
   ⟨1, -2, by decide +kernel, by decide +kernel, by decide +kernel⟩
 /-- Ties to even, both ways: `16777217.0` (between 16777216 and 16777218) goes down, `16777219.0` goes up;
 `0.5000000298023223876953125` (= 1/2 + 2^-25) goes down to `0.5`. -/
-example : fracLit ⟨[1, 6, 7, 7, 7, 2, 1, 7], [0], false⟩ = .single (.fin false 16777216) := by decide +kernel
-example : fracLit ⟨[1, 6, 7, 7, 7, 2, 1, 9], [0], false⟩ = .single (.fin false 16777220) := by decide +kernel
+example : fracLit ⟨[1, 6, 7, 7, 7, 2, 1, 7], [0], false⟩ = .ok (.single (.fin false 16777216)) := by decide +kernel
+example : fracLit ⟨[1, 6, 7, 7, 7, 2, 1, 9], [0], false⟩ = .ok (.single (.fin false 16777220)) := by decide +kernel
 example : fracLit ⟨[0], [5, 0, 0, 0, 0, 0, 0, 2, 9, 8, 0, 2, 3, 2, 2, 3, 8, 7, 6, 9, 5, 3, 1, 2, 5], false⟩
-    = .single (.fin false ((1 : Rat) / 2)) := by decide +kernel
+    = .ok (.single (.fin false ((1 : Rat) / 2))) := by decide +kernel
 /-- one digit more decides the tie -/
 example : fracLit ⟨[0], [5, 0, 0, 0, 0, 0, 0, 2, 9, 8, 0, 2, 3, 2, 2, 3, 8, 7, 6, 9, 5, 3, 1, 2, 5, 1], false⟩
-    = .single (.fin false ((8388609 : Rat) / 16777216)) := by decide +kernel
+    = .ok (.single (.fin false ((8388609 : Rat) / 16777216))) := by decide +kernel
 /-- The digit count does not make a DOUBLE: 17 digits without `#` are a SINGLE (QBasic would type this
 literal DOUBLE). -/
-example : fracLit ⟨[2, 4, 0, 6, 1, 1, 1, 9, 3], [8, 7, 5], false⟩ = .single (.fin false 240611200) := by
+example : fracLit ⟨[2, 4, 0, 6, 1, 1, 1, 9, 3], [8, 7, 5], false⟩ = .ok (.single (.fin false 240611200)) := by
   decide +kernel
 /-- After a minus sign: the same magnitude, the sign flipped, the type kept; `-.0` is the negative zero. -/
-example : negFracLit ⟨[1], [5], false⟩ = .single (.fin true ((3 : Rat) / 2)) := by decide +kernel
-example : negFracLit ⟨[], [0], false⟩ = .single (.fin true 0) := by decide +kernel
-example : (fracLit ⟨[1], [5], true⟩).val.toRat? = some ((3 : Rat) / 2) := by decide +kernel
-/-- The overflow arm of `fracLit_value` is inhabited: `2^128` written out with `.0` is `+inf` as a SINGLE
-(`PRINT 340282366920938463463374607431768211456.0` prints `inf`) and finite with `#`. -/
+example : negFracLit ⟨[1], [5], false⟩ = .ok (.single (.fin true ((3 : Rat) / 2))) := by decide +kernel
+example : negFracLit ⟨[], [0], false⟩ = .ok (.single (.fin true 0)) := by decide +kernel
+example : fracLit ⟨[1], [5], true⟩ = .ok (.double (.fin false ((3 : Rat) / 2))) := by decide +kernel
+/-- The overflow arm of `fracLit_value` is inhabited: `2^128` written out with `.0` is rejected as a SINGLE
+(`PRINT 340282366920938463463374607431768211456.0` is the parse error Overflow) and accepted with `#`. -/
 example : fracLit ⟨[3,4,0,2,8,2,3,6,6,9,2,0,9,3,8,4,6,3,4,6,3,3,7,4,6,0,7,4,3,1,7,6,8,2,1,1,4,5,6], [0], false⟩
-    = .single (.inf false) := by decide +kernel
+    = .overflow := by decide +kernel
 example : fracLit ⟨[3,4,0,2,8,2,3,6,6,9,2,0,9,3,8,4,6,3,4,6,3,3,7,4,6,0,7,4,3,1,7,6,8,2,1,1,4,5,6], [0], true⟩
-    = .double (.fin false 340282366920938463463374607431768211456) := by decide +kernel
+    = .ok (.double (.fin false 340282366920938463463374607431768211456)) := by decide +kernel
+/-- The edge of SINGLE, both sides and both signs: `340282356779733661637539395458142568447.9` (just below
+`2^128 - 2^103`) is the largest SINGLE `2^128 - 2^104`, `340282356779733661637539395458142568448.0` (the
+midpoint itself: the tie goes to the even significand, up) is the first rejected literal. -/
+example : fracLit ⟨[3,4,0,2,8,2,3,5,6,7,7,9,7,3,3,6,6,1,6,3,7,5,3,9,3,9,5,4,5,8,1,4,2,5,6,8,4,4,7], [9], false⟩
+    = .ok (.single (.fin false 340282346638528859811704183484516925440)) := by decide +kernel
+example : negFracLit ⟨[3,4,0,2,8,2,3,5,6,7,7,9,7,3,3,6,6,1,6,3,7,5,3,9,3,9,5,4,5,8,1,4,2,5,6,8,4,4,7], [9], false⟩
+    = .ok (.single (.fin true 340282346638528859811704183484516925440)) := by decide +kernel
+example : fracLit ⟨[3,4,0,2,8,2,3,5,6,7,7,9,7,3,3,6,6,1,6,3,7,5,3,9,3,9,5,4,5,8,1,4,2,5,6,8,4,4,8], [0], false⟩ = .overflow := by decide +kernel
+example : negFracLit ⟨[3,4,0,2,8,2,3,5,6,7,7,9,7,3,3,6,6,1,6,3,7,5,3,9,3,9,5,4,5,8,1,4,2,5,6,8,4,4,8], [0], false⟩ = .overflow := by decide +kernel
+/-- The edge of DOUBLE (`2^1024 - 2^970`, 309 digits): one tenth below it the largest DOUBLE `2^1024 - 2^971`,
+at it the first rejected literal. -/
+def dblEdgeDigits : List Nat := [1,7,9,7,6,9,3,1,3,4,8,6,2,3,1,5,8,0,7,9,3,7,2,8,9,7,1,4,0,5,3,0,3,4,1,5,0,7,9,9,3,4,1,3,2,7,1,0,0,3,7,8,2,6,9,3,6,1,7,3,7,7,8,9,8,0,4,4,4,9,6,8,2,9,2,7,6,4,7,5,0,9,4,6,6,4,9,0,1,7,9,7,7,5,8,7,2,0,7,0,9,6,3,3,0,2,8,6,4,1,6,6,9,2,8,8,7,9,1,0,9,4,6,5,5,5,5,4,7,8,5,1,9,4,0,4,0,2,6,3,0,6,5,7,4,8,8,6,7,1,5,0,5,8,2,0,6,8,1,9,0,8,9,0,2,0,0,0,7,0,8,3,8,3,6,7,6,2,7,3,8,5,4,8,4,5,8,1,7,7,1,1,5,3,1,7,6,4,4,7,5,7,3,0,2,7,0,0,6,9,8,5,5,5,7,1,3,6,6,9,5,9,6,2,2,8,4,2,9,1,4,8,1,9,8,6,0,8,3,4,9,3,6,4,7,5,2,9,2,7,1,9,0,7,4,1,6,8,4,4,4,3,6,5,5,1,0,7,0,4,3,4,2,7,1,1,5,5,9,6,9,9,5,0,8,0,9,3,0,4,2,8,8,0,1,7,7,9,0,4,1,7,4,4,9,7,7,9,2]
+def dblBelowEdgeDigits : List Nat := [1,7,9,7,6,9,3,1,3,4,8,6,2,3,1,5,8,0,7,9,3,7,2,8,9,7,1,4,0,5,3,0,3,4,1,5,0,7,9,9,3,4,1,3,2,7,1,0,0,3,7,8,2,6,9,3,6,1,7,3,7,7,8,9,8,0,4,4,4,9,6,8,2,9,2,7,6,4,7,5,0,9,4,6,6,4,9,0,1,7,9,7,7,5,8,7,2,0,7,0,9,6,3,3,0,2,8,6,4,1,6,6,9,2,8,8,7,9,1,0,9,4,6,5,5,5,5,4,7,8,5,1,9,4,0,4,0,2,6,3,0,6,5,7,4,8,8,6,7,1,5,0,5,8,2,0,6,8,1,9,0,8,9,0,2,0,0,0,7,0,8,3,8,3,6,7,6,2,7,3,8,5,4,8,4,5,8,1,7,7,1,1,5,3,1,7,6,4,4,7,5,7,3,0,2,7,0,0,6,9,8,5,5,5,7,1,3,6,6,9,5,9,6,2,2,8,4,2,9,1,4,8,1,9,8,6,0,8,3,4,9,3,6,4,7,5,2,9,2,7,1,9,0,7,4,1,6,8,4,4,4,3,6,5,5,1,0,7,0,4,3,4,2,7,1,1,5,5,9,6,9,9,5,0,8,0,9,3,0,4,2,8,8,0,1,7,7,9,0,4,1,7,4,4,9,7,7,9,1]
+example : fracLit ⟨dblBelowEdgeDigits, [9], true⟩ = .ok (.double (.fin false ((2 : Rat) ^ 1024 - (2 : Rat) ^ 971))) := by
+  decide +kernel
+example : negFracLit ⟨dblBelowEdgeDigits, [9], true⟩ = .ok (.double (.fin true ((2 : Rat) ^ 1024 - (2 : Rat) ^ 971))) := by
+  decide +kernel
+example : fracLit ⟨dblEdgeDigits, [0], true⟩ = .overflow := by decide +kernel
+example : negFracLit ⟨dblEdgeDigits, [0], true⟩ = .overflow := by decide +kernel
+example : digitsVal 10 dblEdgeDigits = dblOverflow := by decide +kernel
 /-- Subnormal range: `1e-45` is the smallest positive SINGLE `2^-149`. -/
 example : roundNearestEven ((1 : Rat) / 10 ^ 45) single = (2 : Rat) ^ (-149 : Int) := by decide +kernel
 
